@@ -5,10 +5,11 @@ From Anko Require Import Base.Assoc Env.EnvModel Interp.Ast Interp.Value Interp.
 Import ListNotations.
 
 (* deferred calls do not alter the invocation's result: for any number of deferred calls, whatever
-   they do, the result register after running them is the one before *)
+   they do - also when they write to the place the result was read from - the value of the result
+   after running them is the value it had before *)
 Theorem deferred_calls_keep_the_result : forall orc cancel_at fuel ds err0 s,
   match exec orc cancel_at fuel (CDefers ds err0) s with
-  | Ok s' | Err _ s' => r_rv s' = r_rv s
+  | Ok s' | Err _ s' => deref (r_st s') (r_rv s') = deref (r_st s) (r_rv s)
   | Abort _ => True
   end.
 Proof. exact defers_keep_rv. Qed.
@@ -30,10 +31,10 @@ Theorem deferred_calls_run_one_by_one : forall rec d r err0 s,
   run_defers rec (d :: r) err0 s =
     match rec (CApply (d_fn d) (d_args d) (d_slice d)) s with
     | Abort a => Abort a
-    | Ok s1 => rec (CDefers r err0) (set_rv s1 (r_rv s))
+    | Ok s1 => rec (CDefers r err0) (set_rv s1 (detach (r_st s) (r_rv s)))
     | Err e s1 =>
         rec (CDefers r (match err0 with None | Some (ESentinel SReturnS) => Some e | Some x => Some x end))
-            (set_rv s1 (r_rv s))
+            (set_rv s1 (detach (r_st s) (r_rv s)))
     end.
 Proof. reflexivity. Qed.
 
